@@ -10,13 +10,14 @@ RULE = ("S-syn listings with planted runs of identical instructions and repeated
         "`times` (integer, {min,max}, min only, max only; body spelling for operand-less items, sibling spelling for items "
         "with operands and for $and/$or/$not/$and_any_order groups, also $or groups with times inside operand lists), bounds chosen at the edges of the planted run "
         "(r-1, r, r+1); deterministic group probes (r alternating repetitions of a two-instruction group of every kind, framed by "
-        "markers, bounds around r). Two oracles per execution: (1) R-dsl differential on found / leftmost start / hit windows; "
+        "markers, bounds around r); an exhaustive bounds grid, identical at every seed (8 element kinds x run length 0..4 x every integer / {min,max} / "
+        "min-only / max-only form with bounds <= 5, ground truth by construction: found iff min <= r <= max, the hit covering the whole run). Two oracles per execution: (1) R-dsl differential on found / leftmost start / hit windows; "
         "(2) model-free twin: the same rule with every top-level repeated element written out n times (or as an $or of the "
         "written-out lengths when max-min<=3), executed on the real code and compared on verdict and first address. "
         "Non-trivial = model finds the rule or the case is one mutation from a found case; distinct = (rule, listing).")
 FLOOR = {"quick": 300, "thorough": 4000}
 ANCHOR_HINTS = ["time_type_builder", "pattern_node_builder", "node_branch_root", "mnemonic_and_operand"]
-REQUIRED_EVENTS = ["hits_located", "twin_compared"]
+REQUIRED_EVENTS = ["hits_located", "twin_compared", "bounds_grid_cells"]
 QUIRKS = []
 
 
@@ -162,11 +163,109 @@ def group_probe_stratum(ctx, d, n):
         ctx.event("group_probes")
 
 
+GRID_KINDS = ["item", "item-operands", "$and", "$or", "$not", "$and_any_order", "deref-operand", "or-operand"]
+
+
+def bounds_grid_stratum(ctx, ws):
+    """Exhaustive grid, identical at every seed: element kind x run length r (0..4) x every bound form with 0 <= min <= max <= 5
+    (integer n, {min,max}, {min} only, {max} only). The listing is `x, E^r, y` (for operand kinds: one instruction whose operand list
+    holds E r times), the rule `x, E{bounds}, y`; by construction it is found iff min <= r <= max, and the hit then starts at x and
+    covers the whole run. No model is involved."""
+    from jv import listing as L
+    jobs = []
+    for kind in GRID_KINDS:
+        for r in range(0, 5):
+            for lo in range(0, 5):
+                for hi in range(max(lo, 1), 6):
+                    jobs.append((kind, r, lo, hi, "range"))
+            for n in range(0, 6):
+                jobs.append((kind, r, n, n, "int"))
+            for lo in range(0, 5):
+                jobs.append((kind, r, lo, 1, "min-only"))          # max defaults to 1
+            for hi in range(1, 6):
+                jobs.append((kind, r, 1, hi, "max-only"))          # min defaults to 1
+    for i, (kind, r, lo, hi, form) in enumerate(jobs):
+        if i % ctx.nshards != ctx.shard:
+            continue
+        if form == "min-only" and lo > 1:
+            continue                                               # {min: 3} alone means min 3, max 1: an inverted pair, C17's subject
+        t = hi if form == "int" else {"min": lo, "max": hi} if form == "range" else {"min": lo} if form == "min-only" else {"max": hi}
+        insts, addr = [], 0x401000
+
+        def put(m, ops=()):
+            nonlocal addr
+            insts.append(L.SInst(addr, m, list(ops), None, None, 3))
+            addr += 3
+        operand_kind = kind in ("deref-operand", "or-operand")
+        put("hlt")
+        if operand_kind:
+            if r == 0:
+                put("lea", ["%rdx"])
+            elif kind == "deref-operand":
+                put("vfoo", ["0x8(%rsi)"] * r + ["%rdx"])
+            else:
+                put("vfoo", ["%rax" if k % 2 == 0 else "%rbx" for k in range(r)] + ["%rdx"])
+        else:
+            for k in range(r):
+                if kind == "item":
+                    put("nop")
+                elif kind == "item-operands":
+                    put("inc", ["%rax"])
+                elif kind == "$and":
+                    put("push", ["%rax"]), put("pop", ["%rax"])
+                elif kind == "$or":
+                    put("push" if k % 2 == 0 else "pop", ["%rax"])
+                elif kind == "$not":
+                    put("inc" if k % 2 == 0 else "dec", ["%rcx"])
+                else:
+                    (put("push", ["%rax"]), put("pop", ["%rax"])) if k % 2 == 0 else (put("pop", ["%rax"]), put("push", ["%rax"]))
+        put("cli")
+        put("ret")
+        if operand_kind:
+            E = {"$deref": {"main_reg": "rsi", "constant_offset": "0x8"}, "times": t} if kind == "deref-operand" else {"$or": ["%rax", "%rbx"], "times": t}
+            mn = "lea" if r == 0 else "vfoo"
+            pattern = ["hlt", {mn: [E, "%rdx"]}, "cli"]
+            covered = 3
+        else:
+            E = {"nop": {"times": t}} if kind == "item" else {"inc": ["%rax"], "times": t} if kind == "item-operands" else \
+                {"$and": ["push", "pop"], "times": t} if kind == "$and" else {"$or": ["push", "pop"], "times": t} if kind == "$or" else \
+                {"$not": ["cli"], "times": t} if kind == "$not" else {"$and_any_order": ["push", "pop"], "times": t}
+            pattern = ["hlt", E, "cli"]
+            covered = 2 + r * (2 if kind in ("$and", "$and_any_order") else 1)
+        text = L.render(insts, ctx.rng, labels=False)
+        lp = ws.write("grid.s", text)
+        rule = real.dump_rule({"config": {"mnemonics-full-match": True}, "pattern": pattern})
+        res = real.match(ws.write("grid.yaml", rule), lp, ret="list", search="all", only_addr=False)
+        ctx.ran()
+        ctx.event("bounds_grid_cells")
+        want = lo <= r <= hi
+        ctx.case(("grid", kind, r, lo, hi, form), True, stratum=f"bounds grid/{kind}", outcome="found" if (res[0] == "ok" and res[1]) else "exc" if res[0] != "ok" else "not found")
+        case = {"grid": True, "rule": rule, "listing": text, "want": want, "covered": covered}
+        if res[0] != "ok":
+            ctx.disagreement(case, f"bounds grid: {kind} repeated r={r} times with times={t}: real raised {res[1]}: {res[2]}")
+        elif bool(res[1]) != want:
+            ctx.disagreement(case, f"bounds grid: {kind} repeated r={r} times, times={t}: expected {'found' if want else 'not found'} (min<=r<=max is {want}), got {str(res[1])[:100]}")
+        elif want and not (len(res[1]) == 1 and res[1][0].startswith("401000::") and res[1][0].count("|") == covered):
+            ctx.disagreement(case, f"bounds grid: {kind} r={r} times={t}: the hit must start at 401000 and cover {covered} instructions, got {[(h[:12], h.count('|')) for h in res[1]]}")
+
+
+def replay_grid(ctx, case):
+    ws = real.Workspace()
+    res = real.match(ws.write("grid.yaml", case["rule"]), ws.write("grid.s", case["listing"]), ret="list", search="all", only_addr=False)
+    ctx.ran()
+    ok = res[0] == "ok" and bool(res[1]) == case["want"] and (not case["want"] or (len(res[1]) == 1 and res[1][0].count("|") == case["covered"]))
+    if not ok:
+        ctx.disagreement(case, f"bounds grid cell: expected found={case['want']} covering {case['covered']} instructions, got {str(res[:2])[:160]}")
+
+
 def run_shard(ctx):
+    bounds_grid_stratum(ctx, real.Workspace())
     d = drive.Driver(ctx, feat, flags="random", styles=("runs", "runs", "mixed", "tiny"), quirks=QUIRKS, extra=twin, classify=classify)
     d.loop(3000, 250000)
     group_probe_stratum(ctx, d, ctx.share(96, 4000))
 
 
 def replay(ctx, case):
+    if case.get("grid"):
+        return replay_grid(ctx, case)
     drive.replay_dsl(ctx, case, QUIRKS, classify)
